@@ -1333,6 +1333,54 @@ func (g *c17Gen) sameMoves(maxSize int) []string {
 }
 
 // disorder: drop, swap, duplicate lines, insert malformed ones
+// sameLineOtherSize: games on DIFFERENT board sizes on one engine whose position lines are word for word the same, or extend
+// one another (startpos and placements that fit the smaller board): whatever the engine keeps about the last position command
+// must not outlive teinewgame.
+func (g *c17Gen) sameLineOtherSize(maxSize int) []string {
+	r := g.r
+	var out []string
+	if maxSize > 6 {
+		maxSize = 6 // the extracted search model is slow on large boards
+	}
+	small := 3 + r.Intn(2)
+	if small > maxSize {
+		small = maxSize
+	}
+	var sqs [][2]int
+	for y := 0; y < small; y++ {
+		for x := 0; x < small; x++ {
+			sqs = append(sqs, [2]int{x, y})
+		}
+	}
+	r.Shuffle(len(sqs), func(i, j int) { sqs[i], sqs[j] = sqs[j], sqs[i] })
+	n := 2 + r.Intn(4)
+	var mv []string
+	for i := 0; i < n && i < len(sqs); i++ {
+		t := tak.PlaceFlat
+		if i >= 2 && r.Intn(4) == 0 {
+			t = tak.PlaceStanding
+		}
+		mv = append(mv, c17FormatMove(tak.Move{X: int8(sqs[i][0]), Y: int8(sqs[i][1]), Type: t}, 0))
+	}
+	k := 1 + r.Intn(len(mv))
+	games := 2 + r.Intn(2)
+	lastSize := 0
+	for gi := 0; gi < games; gi++ {
+		size := small + r.Intn(maxSize-small+1)
+		if size == lastSize && maxSize > small {
+			size = small + (size-small+1)%(maxSize-small+1)
+		}
+		lastSize = size
+		out = append(out, g.join("teinewgame", strconv.Itoa(size)))
+		words := append([]string{"position", "startpos", "moves"}, mv[:k]...)
+		out = append(out, g.join(words...), g.join(append([]string{"go"}, g.goArgs(true)...)...))
+		if r.Intn(2) == 0 && k < len(mv) {
+			k += 1 + r.Intn(len(mv)-k)
+		}
+	}
+	return out
+}
+
 func (g *c17Gen) disorder(lines []string, n int) []string {
 	r := g.r
 	for k := 0; k < n && len(lines) > 0; k++ {
@@ -1430,7 +1478,12 @@ func (g *c17Gen) script(id int) *c17Script {
 		}
 	case k == 16 && r.Intn(2) == 0, k == 13:
 		s.family = "same-moves-other-start"
-		lines = g.sameMoves(maxSize)
+		if r.Intn(3) == 0 {
+			s.family = "same-line-other-size"
+			lines = g.sameLineOtherSize(maxSize)
+		} else {
+			lines = g.sameMoves(maxSize)
+		}
 	case k < 17:
 		s.family = "quit-midway"
 		lines = g.session(maxSize)
@@ -1601,6 +1654,15 @@ func (g *c17Gen) lowReserveScript(tiny bool) *c17Script {
 	r := g.r
 	s := &c17Script{mode: "L", depth: 1 + r.Intn(2), evk: 2, tbl: []int{0, 64}[r.Intn(2)], family: "low-reserve", tiny: tiny}
 	size := 5 + r.Intn(4)
+	if !tiny {
+		// compared with the extracted model, which searches a few hundred nodes per second: tall stacks mean a thousand moves per
+		// node, so depth 1 on 5x5 only; the larger boards and depth 2 are judged by the oracle alone
+		if r.Intn(2) == 0 {
+			size, s.depth = 5, 1
+		} else {
+			s.tiny = true
+		}
+	}
 	tps, ok := g.lowReserveTPS(size)
 	for !ok {
 		tps, ok = g.lowReserveTPS(size)
@@ -1931,6 +1993,116 @@ func runC17(c *ctx) {
 	c17RunScripts(c, bin, "scripts-"+c.tier, scripts)
 	c17Budgets(c, bin)
 	c17Probes(c, bin, 10)
+	c17Clients(c, bin)
+}
+
+// c17Clients: the CLIENT side (tei.Client / tei.Player.TEIGetMove, what selfplay drives tournaments through): for every position
+// handed to TEIGetMove the engine process must receive a `position tps` line that declares exactly that position - squares, side
+// to move AND move number - followed by its go line.  One client serves several games; within and across games the same board
+// with the same side to move comes back at later move numbers (shuffles, transpositions), and boards recur on other sizes.
+func c17Clients(c *ctx, bin string) {
+	r := c.r
+	type sess struct {
+		items []string
+		want  []*aboard
+	}
+	var ss []sess
+	for k := 0; k < 12*c.scale; k++ {
+		var s sess
+		games := 1 + r.Intn(3)
+		var carry []*aboard // positions of earlier games of this client
+		for g := 0; g < games; g++ {
+			size := 3 + r.Intn(6)
+			if g > 0 && r.Intn(2) == 0 && len(carry) > 0 {
+				size = carry[0].n
+			}
+			s.items = append(s.items, "G "+strconv.Itoa(size))
+			ps, _ := randomGame(r, tak.Config{Size: size}, 4+r.Intn(20), -1, false)
+			var asked []*aboard
+			for i, p := range ps {
+				if i < 2 && r.Intn(2) == 0 {
+					continue
+				}
+				if over, _ := p.GameOver(); over {
+					continue
+				}
+				a := absOf(p)
+				asked = append(asked, a)
+				// the same board and side to move again, 2 / 4 / 6 plies later (a shuffle came back to it)
+				if r.Intn(3) == 0 {
+					b := a.clone()
+					b.ply += 2 * (1 + r.Intn(3))
+					asked = append(asked, b)
+				}
+				// a position of an earlier game of the same size once more, at another move number
+				if r.Intn(5) == 0 {
+					for _, o := range carry {
+						if o.n == size {
+							b := o.clone()
+							b.ply += 2 * r.Intn(4)
+							asked = append(asked, b)
+							break
+						}
+					}
+				}
+			}
+			for _, a := range asked {
+				s.items = append(s.items, "P "+c17FormatTPS(a))
+				s.want = append(s.want, a)
+			}
+			carry = append(asked, carry...)
+		}
+		ss = append(ss, s)
+	}
+	var reqs []string
+	for i, s := range ss {
+		reqs = append(reqs, fmt.Sprintf("K %d %s", i, hex.EncodeToString([]byte(strings.Join(s.items, "\n")))))
+	}
+	resp := c17Drive(bin, "clients-"+c.tier, reqs)
+	for i, rr := range resp {
+		f := strings.Split(rr, " ")
+		in := "client-session;" + strings.Join(ss[i].items, ";")
+		if len(f) < 4 || f[0] != "K" {
+			c.printf("ORACLE-FAIL client-driver | %s | %s | a K response\n", in, rr)
+			continue
+		}
+		c.stat("client_sessions", 1)
+		if f[2] != "N" {
+			c.printf("ORACLE-FAIL client-error | %s | the client ended with %s | every request answered\n", in, strings.Join(f[2:len(f)-1], " "))
+			continue
+		}
+		raw, _ := hex.DecodeString(f[len(f)-1])
+		var posLines []string
+		lines := strings.Split(strings.TrimRight(string(raw), "\n"), "\n")
+		for li, l := range lines {
+			if strings.HasPrefix(l, "position ") {
+				posLines = append(posLines, l)
+				if li+1 >= len(lines) || !strings.HasPrefix(lines[li+1], "go") {
+					c.printf("ORACLE-FAIL client-protocol | %s | position line not followed by a go line | position, then go\n", in)
+				}
+			}
+		}
+		if len(posLines) != len(ss[i].want) {
+			c.printf("ORACLE-FAIL client-protocol | %s | %d position lines for %d requests | one position line per request\n", in, len(posLines), len(ss[i].want))
+			continue
+		}
+		for k, l := range posLines {
+			c.stat("client_position_lines", 1)
+			w := strings.Fields(l)
+			ok := len(w) == 5 && w[1] == "tps"
+			var got *aboard
+			if ok {
+				var cls int
+				got, cls = c17ParseTPS(w[2], w[3], w[4])
+				ok = cls == cOK && got != nil
+			}
+			want := ss[i].want[k]
+			if !ok || c17Enc(got) != c17Enc(want) {
+				c.printf("ORACLE-FAIL client-position-line-wrong | %s | request %d: the engine received %q | a line declaring %s (%s)\n", in, k+1, l, c17FormatTPS(want), c17Enc(want))
+				break
+			}
+		}
+	}
 }
 
 func c17Fixed() []*c17Script {
